@@ -94,6 +94,9 @@ def fresh_import(kernel=None, with_widget=False, sim_locks=True):
                 os.close(u._tty_fd)
             except OSError:
                 pass
+        # everything imported so far is permanent: keep generated collect operations cheap
+        gc.collect()
+        gc.freeze()
     purge()
     if _pty is None:
         _pty = os.openpty()
